@@ -1,7 +1,79 @@
-import PprofVerif.Base.Tok
-/- Driver operations for C10. -/
-namespace Driver.C10
-open PV
+import PprofVerif.Model.Session
+/- Driver operations for C10: the session model (`Model/Session.lean`) behind the line protocol.
 
-def ops : List (String × (List String → String)) := []
+   sess.run  <stypes: list str> <dflt: str> <floats: list (str, opt str)> <lines: list str>
+     → `ok` <n> then per line: <kind> <isAssignLine> <cmd: list str> <diff: list (str str)>, then the
+       final option record <list (str str)> and `alive`/`done`.
+       kind ∈ assign-ok assign-err blank options quit help cmd-err cmd panic dead;
+       diff = the options in which the per-command configuration (vcopy) differs from the options in
+       effect, i.e. what the command's own arguments contributed.
+   web.view  <floats> <endpoint> <cfg-assignments: list str> <params: list (str str)>
+     → `bad` | `ok` <cmd: list str> <cfg: list (str str)>
+   The report generator is not part of the model (it is the parameter the theorems quantify over); here it
+   is instantiated with a function that just returns what it was asked for. -/
+namespace Driver.C10
+open PV PV.Session
+
+abbrev Out := List Str × Config
+
+def floatTab : Rd (List (Str × Option Str)) := Rd.list (do let k ← Rd.str; let v ← Rd.opt Rd.str; pure (k, v))
+
+def mkEnv (tab : List (Str × Option Str)) : Env Unit Out :=
+  { decode := fun _ => .ok (), report := fun p c cmd => ((cmd, c), p), floatNorm := fun s => (List.lookup s tab).join }
+
+def wrCfg (c : Config) : Wr := Wr.list (fun kv => Wr.str kv.1 ++ Wr.str kv.2) c
+
+def cfgDiff (base v : Config) : Config :=
+  v.filter (fun kv => base.get kv.1 != some kv.2)
+
+def describe (cur : Config) (evs : List (Ev Out)) (assignLine : Bool) (wasDone : Bool) (nowDone : Bool) : Wr :=
+  let flag := Wr.bool assignLine
+  if wasDone then ["dead"] ++ flag ++ Wr.list Wr.str [] ++ wrCfg []
+  else match evs with
+  | [.report (cmd, v)] => ["cmd"] ++ flag ++ Wr.list Wr.str cmd ++ wrCfg (cfgDiff cur v)
+  | [.options _] => ["options"] ++ flag ++ Wr.list Wr.str [] ++ wrCfg []
+  | [.help _] => ["help"] ++ flag ++ Wr.list Wr.str [] ++ wrCfg []
+  | [.panic] => ["panic"] ++ flag ++ Wr.list Wr.str [] ++ wrCfg []
+  | [] =>
+    (if assignLine then ["assign-ok"] else if nowDone then ["quit"] else ["blank"]) ++ flag ++ Wr.list Wr.str [] ++ wrCfg []
+  | _ =>
+    (if assignLine then ["assign-err"] else ["cmd-err"]) ++ flag ++ Wr.list Wr.str [] ++ wrCfg []
+
+def runLines (E : Env Unit Out) : Session → List Str → Wr × Session
+  | s, [] => ([], s)
+  | s, l :: r =>
+    let (s', evs) := step E s l
+    let d := describe s.cfg evs (isAssignLine s.stypes l) s.done s'.done
+    let (w, sf) := runLines E s' r
+    (d ++ w, sf)
+
+def epOf (s : String) : Option Endpoint :=
+  match s with
+  | "dot" => some .dot | "top" => some .top | "disasm" => some .disasm | "source" => some .source
+  | "peek" => some .peek | "flamegraph" => some .flamegraph | _ => none
+
+def ops : List (String × (List String → String)) := [
+  ("sess.run", fun ts =>
+    match Rd.run (do
+        let st ← Rd.list Rd.str; let d ← Rd.str; let tab ← floatTab; let ls ← Rd.list Rd.str
+        pure (st, d, tab, ls)) ts with
+    | none => "bad-op"
+    | some (st, d, tab, ls) =>
+      let E := mkEnv tab
+      let (w, sf) := runLines E (init [] st d) ls
+      Wr.render (["ok"] ++ Wr.nat ls.length ++ w ++ wrCfg sf.cfg ++ [if sf.done then "done" else "alive"])),
+  ("web.view", fun ts =>
+    match Rd.run (do
+        let tab ← floatTab; let e ← Rd.tok; let ps ← Rd.list (do let k ← Rd.str; let v ← Rd.str; pure (k, v))
+        pure (tab, e, ps)) ts with
+    | none => "bad-op"
+    | some (tab, e, ps) =>
+      match epOf e with
+      | none => "bad-op"
+      | some ep =>
+        -- the web UI starts from the defaults (no `configure("compact_labels")`, that is interactive only)
+        match applyURL (fun s => (List.lookup s tab).join) ps defaultConfig with
+        | .error _ => "bad"
+        | .ok c => Wr.render (["ok"] ++ Wr.list Wr.str (webCmd ep ps) ++ wrCfg (editor ep c)))
+]
 end Driver.C10
